@@ -75,6 +75,41 @@ pub fn cases(args: &[String]) {
                     }
                 }
             }
+            "mrt" => {
+                // monomorphic catalogue: `mrt TYPE VALUE SUFFIX`, keyed by the text of TYPE
+                let name = sx[0].show();
+                let v = sx[1].clone();
+                let sfx = unhex(sx[2].atom());
+                let n2 = name.clone();
+                let e = guarded(std::panic::AssertUnwindSafe(move || {
+                    match crate::mono::mono_enc(&name, &v).unwrap_or_else(|| panic!("no monomorphic type {name}")) {
+                        Ok(b) => (format!("ok {}", if b.is_empty() { "-".to_string() } else { hex(&b) }), Some(b)),
+                        Err(e) => (format!("err {}", err_class(&e)), None),
+                    }
+                }));
+                match e {
+                    Err(p) => Ok(format!("panic {} ; -", p.replace('\n', " "))),
+                    Ok((l, None)) => Ok(format!("{l} ; -")),
+                    Ok((l, Some(mut b))) => {
+                        b.extend_from_slice(&sfx);
+                        match guarded(std::panic::AssertUnwindSafe(move || match crate::mono::mono_dec(&n2, &b).unwrap() {
+                            Ok((v, rest)) => format!("ok {v} {rest}"),
+                            Err(e) => format!("err {}", err_class(&e)),
+                        })) {
+                            Ok(d) => Ok(format!("{l} ; {d}")),
+                            Err(p) => Ok(format!("{l} ; panic {}", p.replace('\n', " "))),
+                        }
+                    }
+                }
+            }
+            "mdec" => {
+                let name = sx[0].show();
+                let b = unhex(sx[1].atom());
+                guarded(std::panic::AssertUnwindSafe(move || match crate::mono::mono_dec(&name, &b).unwrap_or_else(|| panic!("no monomorphic type {name}")) {
+                    Ok((v, rest)) => format!("ok {v} {rest}"),
+                    Err(e) => format!("err {}", err_class(&e)),
+                }))
+            }
             _ => panic!("bad static command {cmd}"),
         };
         match r {
